@@ -109,6 +109,9 @@ void splinetable<Alloc>::fit(const ::ndsparse& data,
 	extents = allocate<double_ptr>(ndim);
 	extents[0] = nullptr;
 	extents[0] = allocate<double>(2*ndim);
+	//a fitted spline is not periodic
+	periods = allocate<double>(ndim);
+	std::fill(periods,periods+ndim,0.);
 	naxes = allocate<uint64_t>(ndim);
 	for(uint32_t i=0; i<ndim; i++)
 		naxes[i]=nknots[i]-order[i]-1;
